@@ -50,6 +50,8 @@
 #include "med_extras.h"
 #include "hmn_extras.h"
 #include "far_extras.h"
+#include "depackers/depacker.h"
+#include "tempfile.h"
 #include <dirent.h>
 #include <unistd.h>
 #include <fcntl.h>
@@ -983,6 +985,105 @@ static void rel_evaluate(const char *tag, int ctx_alive)
 	}
 }
 
+
+/* ------------------------------------------------------------------ */
+/* reference modules: what a refused load must not disturb             */
+/* ------------------------------------------------------------------ */
+
+/* After a refused (or faulted) load the same context loads a REFERENCE module of another format (C04_REF, C04_REF2:
+ * paths from the environment) and must then hold and render exactly what a fresh context holds and renders: module
+ * digest, the per-module playback parameters a loader may install (volume table, c4rate, quirks, flow / event / period
+ * modes, volume bases, timing, MIDI macros, format extras, comment), return codes and the PCM of the first frames. */
+#define NREF 2
+static unsigned char *ref_data[NREF];
+static long ref_size[NREF];
+static uint64_t ref_dig[NREF];
+static int ref_have[NREF], ref_ready;
+static long ref_checks;
+
+static uint64_t ref_state_digest(xmp_context ctx)
+{
+	struct context_data *c = CTX(ctx);
+	struct module_data *m = &c->m;
+	struct xmp_frame_info fi;
+	uint64_t h = module_digest(ctx), pd = 0;
+	int v[16], i, rc;
+	const void *vt = m->vol_table;
+	v[0] = m->c4rate; v[1] = m->quirk; v[2] = m->flow_mode; v[3] = m->read_event_type; v[4] = m->period_type;
+	v[5] = m->volbase; v[6] = m->gvol; v[7] = m->gvolbase; v[8] = m->mvol; v[9] = m->mvolbase;
+	v[10] = m->compare_vblank; v[11] = m->midi != NULL; v[12] = m->extra != NULL; v[13] = m->comment != NULL;
+	v[14] = c->p.flags; v[15] = c->p.mode;
+	h = fnv1a(h, v, sizeof(v));
+	h = fnv1a(h, &vt, sizeof(vt));		/* points into the library's constant tables or is NULL */
+	h = fnv1a(h, &m->rrate, sizeof(m->rrate));
+	h = fnv1a(h, &m->time_factor, sizeof(m->time_factor));
+	libxmp_set_random(&c->rng, 20260930u);
+	rc = xmp_start_player(ctx, 22050, 0);
+	h = fnv1a(h, &rc, sizeof(rc));
+	if (rc == 0) {
+		for (i = 0; i < 5; i++) {
+			if (xmp_play_frame(ctx) < 0)
+				break;
+			xmp_get_frame_info(ctx, &fi);
+			pd = fnv1a(pd ? pd : FNV_INIT, fi.buffer, fi.buffer_size);
+			h = fnv1a(h, &fi.pos, sizeof(int) * 8);	/* pos pattern row num_rows frame speed bpm time */
+		}
+		xmp_end_player(ctx);
+	}
+	return fnv1a(h, &pd, sizeof(pd));
+}
+
+static void ref_setup(void)
+{
+	static const char *const names[NREF] = { "C04_REF", "C04_REF2" };
+	int i;
+	ref_ready = 1;
+	for (i = 0; i < NREF; i++) {
+		const char *p = getenv(names[i]);
+		xmp_context ctx;
+		if (p == NULL || (ref_data[i] = read_file(p, &ref_size[i])) == NULL)
+			continue;
+		ctx = xmp_create_context();
+		if (xmp_load_module_from_memory(ctx, ref_data[i], ref_size[i]) == 0) {
+			rel_evaluate("ref", 1);
+			ref_dig[i] = ref_state_digest(ctx);
+			ref_have[i] = 1;
+		}
+		xmp_free_context(ctx);
+		rel_evaluate("free", 0);
+	}
+}
+
+/* returns the number of violations */
+static int ref_check(xmp_context ctx, const struct source *src, int rc_first)
+{
+	int i, viol = 0;
+	if (!ref_ready)
+		ref_setup();
+	for (i = 0; i < NREF; i++) {
+		int rc;
+		uint64_t d;
+		if (!ref_have[i])
+			continue;
+		if (src->size == ref_size[i] && memcmp(src->data, ref_data[i], ref_size[i]) == 0)
+			continue;	/* the reference itself is under test */
+		xmp_release_module(ctx);		/* (the reload of the same source may have succeeded) */
+		rel_evaluate("prerelease", 1);
+		rc = xmp_load_module_from_memory(ctx, ref_data[i], ref_size[i]);
+		rel_evaluate("refload", 1);
+		ref_checks++;
+		d = rc == 0 ? ref_state_digest(ctx) : 0;
+		if (rc != 0 || d != ref_dig[i]) {
+			printf("viol reuse:other_module after the refused load (rc=%d) reference module %d loaded into the same context "
+			       "%s (rc=%d digest %016llx, fresh context %016llx): residue of the refused module\n", rc_first, i,
+			       rc != 0 ? "does not load" : "holds or renders something else than in a fresh context", rc,
+			       (unsigned long long)d, (unsigned long long)ref_dig[i]);
+			viol++;
+		}
+	}
+	return viol;
+}
+
 /* ------------------------------------------------------------------ */
 /* the faulted operations                                              */
 /* ------------------------------------------------------------------ */
@@ -1292,6 +1393,8 @@ static int run_case(int op, struct source *src, int k, int isbase)
 			       (unsigned long long)base.mdig);
 			viol++;
 		}
+		if (rc < 0 || fired)
+			viol += ref_check(ctx, src, rc);
 	} else if (op == OP_START || op == OP_RESTART || op == OP_STARTSMIX || op == OP_SMIXLOAD) {
 		if (rc == 0 && op != OP_SMIXLOAD)
 			xmp_end_player(ctx);
@@ -1777,11 +1880,37 @@ static int cmd_trunc(int argc, char **argv)
 	const char *scratch = getenv("C04_SCRATCH");
 	if (argc < 5)
 		return 2;
-	entry = parse_entry(argv[2]);
-	src_init(&full, entry, argv[3]);
-	printf("begin op=trunc entry=%s file=%s\n", argv[2], argv[3]);
+	if (!strcmp(argv[2], "umem")) {
+		/* the UNPACKED stream of the file (what the format loader reads when the file is loaded by path), from memory */
+		HIO_HANDLE *h;
+		char *temp = NULL;
+		entry = E_MEM;
+		src_init(&full, entry, argv[3]);
+		h = hio_open(argv[3], "rb");
+		if (h != NULL) {
+			if (libxmp_decrunch(h, argv[3], &temp) == 0 && hio_size(h) > 0) {
+				long n = hio_size(h);
+				unsigned char *u = (unsigned char *)malloc(n);
+				hio_seek(h, 0, SEEK_SET);
+				if (u != NULL && (long)hio_read(u, 1, n, h) == n) {
+					free(full.data);
+					full.data = u;
+					full.size = n;
+				} else {
+					free(u);
+				}
+			}
+			hio_close(h);
+			unlink_temp_file(temp);
+		}
+	} else {
+		entry = parse_entry(argv[2]);
+		src_init(&full, entry, argv[3]);
+	}
+	printf("begin op=trunc entry=%s file=%s size=%ld\n", argv[2], argv[3], full.size);
 	for (i = 4; i < argc; i++) {
-		long len = atol(argv[i]);
+		/* <n> bytes, or p<k> = k/1000 of the (unpacked) size */
+		long len = argv[i][0] == 'p' ? (long)((double)full.size * atol(argv[i] + 1) / 1000.0) : atol(argv[i]);
 		if (len > full.size)
 			len = full.size;
 		src = full;
@@ -2028,7 +2157,55 @@ static int cmd_closefault(int argc, char **argv)
  *   c04_faults mutate <entry> <file> <off:val[,off:val...]>...     bytes replaced (corrupt archives), load + test
  *   c04_faults companion <module> <companion> <len>...             companion file missing (-1) / a directory (-2) / cut
  *   c04_faults rescan <mode|cflags|scan> <playing 0|1> <file> <kfrom> <kto> <stride> */
+/* position control after the (faulted) call: where do set_position / next / prev / seek_time land and what do they
+ * return.  `with_time` includes the times (they depend on the timing flags, the landing orders do not). */
+static uint64_t rescan_ctl_script(xmp_context ctx, int with_time, int *landed)
+{
+	struct context_data *c = CTX(ctx);
+	struct xmp_frame_info fi;
+	uint64_t h = FNV_INIT;
+	int len = c->m.mod.len, r[4], v[4], step;
+	int target = len > 2 ? len / 2 : len > 1 ? 1 : 0;
+	*landed = 0;
+	for (step = 0; step < 4; step++) {
+		memset(v, 0, sizeof(v));
+		switch (step) {
+		case 0:
+			r[step] = xmp_set_position(ctx, target);
+			break;
+		case 1:
+			r[step] = xmp_next_position(ctx);
+			break;
+		case 2:
+			r[step] = xmp_prev_position(ctx);
+			break;
+		default:
+			if (!with_time)
+				continue;
+			xmp_get_frame_info(ctx, &fi);
+			r[step] = xmp_seek_time(ctx, fi.total_time / 2);
+			break;
+		}
+		if (xmp_play_frame(ctx) < 0)
+			break;
+		xmp_get_frame_info(ctx, &fi);
+		v[0] = r[step];
+		v[1] = fi.pos;
+		v[2] = fi.row;
+		v[3] = fi.sequence;
+		h = fnv1a(h, v, sizeof(v));
+		if (with_time) {
+			h = fnv1a(h, &fi.time, sizeof(int));
+			h = fnv1a(h, &fi.total_time, sizeof(int));
+		}
+		if (step == 0)
+			*landed = fi.pos;
+	}
+	return h;
+}
+
 /* digest of what an untouched context (old mode) renders at the point where run_rescan_case plays on */
+static uint64_t ref_ctl_old;	/* control script of the untouched twin (set by rescan_reference) */
 static uint64_t rescan_reference(struct source *src, int playing)
 {
 	xmp_context ctx = xmp_create_context();
@@ -2048,6 +2225,10 @@ static uint64_t rescan_reference(struct source *src, int playing)
 			xmp_get_frame_info(ctx, &fi);
 			pd = fnv1a(pd, fi.buffer, fi.buffer_size);
 		}
+		{
+			int landed;
+			ref_ctl_old = rescan_ctl_script(ctx, 1, &landed);
+		}
 		xmp_end_player(ctx);
 	}
 	xmp_free_context(ctx);
@@ -2060,7 +2241,8 @@ static int run_rescan_case(int which, int playing, struct source *src, int k, in
 {
 	static int base_n;
 	static uint64_t base_pd, base_old_pd;
-	int nold = 0, shrinkold = 0, mode0, keep[6];
+	int nold = 0, shrinkold = 0, mode0, keep[6], want_old_ctl = 0;
+	uint64_t got_ctl = 0;
 	char fileid[128];
 	xmp_context ctx;
 	struct context_data *c;
@@ -2194,6 +2376,29 @@ static int run_rescan_case(int which, int playing, struct source *src, int k, in
 			break;
 		}
 	}
+	/* (the PCM digest above is taken first: after a jump the speed / tempo of the target order come from the scan data,
+	 * which a tolerated failed rescan under new timing flags legitimately leaves as it was) */
+	{
+		/* position control must land where the twin lands: the unfaulted call (same orders whatever the timing
+		 * flags), or - xmp_set_player(MODE) refused - the context that never made the call */
+		static uint64_t base_ctl, base_ctl_nt;
+		int landed, with_time = which != 1;
+		uint64_t ctl = rescan_ctl_script(ctx, with_time, &landed);
+		if (isbase) {
+			if (with_time)
+				base_ctl = ctl;
+			else
+				base_ctl_nt = ctl;
+		} else if (which == 0 && rc < 0) {
+			want_old_ctl = 1;
+			got_ctl = ctl;
+		} else if (ctl != (with_time ? base_ctl : base_ctl_nt)) {
+			printf("viol rescan:position_control after the faulted call (rc=%d) xmp_set_position / next / prev%s do not do "
+			       "what they do after the unfaulted call (set_position landed on order %d)\n", rc,
+			       with_time ? " / seek_time" : "", landed);
+			viol++;
+		}
+	}
 	if (isbase) {
 		base_n = n;
 		base_pd = pd;
@@ -2201,6 +2406,11 @@ static int run_rescan_case(int which, int playing, struct source *src, int k, in
 			base_old_pd = rescan_reference(src, playing);
 	} else if (which == 0 && rc < 0) {
 		/* the refused mode change: the context renders what an untouched context renders */
+		if (want_old_ctl && got_ctl != ref_ctl_old) {
+			printf("viol rescan:position_control after the refused xmp_set_player(XMP_PLAYER_MODE) position control does not "
+			       "do what it does in a context whose mode was never touched\n");
+			viol++;
+		}
 		if (pd != base_old_pd) {
 			printf("viol reuse:rescan after the refused xmp_set_player(XMP_PLAYER_MODE) the context renders differently "
 			       "from one whose mode was never touched\n");
